@@ -454,6 +454,7 @@ class Bench:
             else:
                 ratio = min(value_eff, T) / T
             relerr = (slackT / T if T > 0 else F(0)) + (2 * q_req / value if value > 0 else F(0)) + F(1, 10 ** 12)
+            ill = T <= 4 * slackT      # the total is at the level of its own rounding: the real ratio may be anything in [0, 1]
             ns, nd = vs.copy(), vd.copy()
             ts = tol.setdefault(('s', cs), {})
             td = tol.setdefault(('d', cd), {})
@@ -464,6 +465,8 @@ class Bench:
                 ns.contents[n] = a - moved
                 nd.add(n, moved)
                 e = abs(moved) * relerr + 10 * W.q_amt(n)
+                if ill:
+                    e += abs(a) + ts.get(n, F(0))      # incl. what the real source may still hold beyond the model's copy
                 ts[n] = ts.get(n, F(0)) + e
                 td[n] = td.get(n, F(0)) + e
             if vd.cap is not None:
